@@ -223,6 +223,10 @@ finding(
     "P79", ["C12"], "fixed", "sync emitted every target from ONE shared interface object: the class emitter moves the return entry into the parameters, so a function file created afterwards from a class truth with a return entry got a spurious parameter `return_type` (found when the P9 relaxation was narrowed to targets that exist, round 9)", "f661e23",
     witnesses={"C12": [{'long_doc': True, 'profile': 'common', 'related': None, 'undocumented': False, 'irs': [{'name': 'Foo', 'doc': 'With limit input.', 'params': [['v16sxw2', {'typ': 'Optional[str]', 'doc': 'well-known kind with a alpha gamma pre-trained name that this on.'}], ['xu0r17b6a', {'typ': 'str', 'doc': 'with pre-trained axis look-up for x-axis step pre-trained w.', 'default': 'O8H0Tz'}], ['m', {'typ': 'bool', 'doc': 'step on-the-fly pre-trained kind non-zero name buffer kind limit when factor pre-tra.', 'default': True}]], 'kinds': ['optstr', 'str', 'bool'], 'returns': {'typ': 'int', 'doc': 'step.'}}, {'name': 'Foo', 'doc': 'With limit input.', 'params': [['v16sxw2', {'typ': 'Optional[str]', 'doc': 'well-known kind with a alpha gamma pre-trained name that this on.'}], ['xu0r17b6a', {'typ': 'str', 'doc': 'with pre-trained axis look-up for x-axis step pre-trained w.', 'default': 'O8H0Tz'}], ['m', {'typ': 'bool', 'doc': 'step on-the-fly pre-trained kind non-zero name buffer kind limit when factor pre-tra.', 'default': True}]], 'kinds': ['optstr', 'str', 'bool'], 'returns': {'typ': 'int', 'doc': 'step.'}}, {'name': 'Foo', 'doc': 'With limit input.', 'params': [['v16sxw2', {'typ': 'Optional[str]', 'doc': 'well-known kind with a alpha gamma pre-trained name that this on.'}], ['xu0r17b6a', {'typ': 'str', 'doc': 'with pre-trained axis look-up for x-axis step pre-trained w.', 'default': 'O8H0Tz'}], ['m', {'typ': 'bool', 'doc': 'step on-the-fly pre-trained kind non-zero name buffer kind limit when factor pre-tra.', 'default': True}]], 'kinds': ['optstr', 'str', 'bool'], 'returns': {'typ': 'int', 'doc': 'step.'}}], 'same': True, 'truth': 'class', 'states': {'class': 'present', 'function': 'missing', 'argparse_function': 'missing'}, 'method': False, 'runs': 1, 'nww': False}]},
 )
+finding(
+    "P80", ["C10"], "open", "a parameter whose default is a SET display (`opt={'SGD', 'sgd', 'Adam'}`): the function parser evaluates it to a Python set and the class / argparse / function emitters print it in the set's own iteration order, which changes with PYTHONHASHSEED (the JSON-schema file, which sorts the members, is stable and stays strict)",
+    witnesses={"C10": [{'inputs': {'setdef0': {'src': 'def f(opt={"SGD", "sgd", "Adam", "adam", "RMSprop"}, n={3, 1, 2}, k=5):\n    """\n    Does the thing.\n\n    :param opt: the opt\n    :param n: the n\n    :param k: the k\n    """\n    return 1\n', 'style': 'rest'}}, 'scripts': [{'name': 'a', 'calls': [['function_to_class', 'setdef0']]}, {'name': 'b', 'calls': [['function_to_class', 'setdef0']]}], 'seeds': [0, 1], 'api': 'function_to_class', 'key': 'setdef0'}]},
+)
 finding("P26", ["C07"], "open", "doctrans drops comments inside a rewritten multi-line def header")
 finding("P27", ["C07"], "open", "doctrans turns a one-line `def f(a=1): return a` into invalid Python")
 finding("P28", ["C07"], "open", "doctrans does not recognise a raw docstring r\"\"\"...\"\"\": a second string is inserted")
